@@ -24,7 +24,8 @@ class EmitTask(Task):
 
     def __init__(self, prop, name, method, node_cls, predicate, mode="expr", buffers=(None,), replay_fn=None,
                  generator_cls=None, node_fields=None, configure=None, extra_args=(), pre=None, min_paths=1,
-                 env_fields=None, frame_flags=None, gen_fields=None, path_filter=None, extra_kwargs=None, closure=None):
+                 env_fields=None, frame_flags=None, gen_fields=None, path_filter=None, extra_kwargs=None, closure=None,
+                 install_opts=None):
         self.prop = prop
         self.name = name
         self.method = method
@@ -34,7 +35,8 @@ class EmitTask(Task):
         self.buffers = buffers
         self.replay_fn = replay_fn
         self.kw = dict(generator_cls=generator_cls, node_fields=node_fields, configure=configure, extra_args=extra_args,
-                       pre=pre, env_fields=env_fields, frame_flags=frame_flags, gen_fields=gen_fields, extra_kwargs=extra_kwargs)
+                       pre=pre, env_fields=env_fields, frame_flags=frame_flags, gen_fields=gen_fields, extra_kwargs=extra_kwargs,
+                       install_opts=install_opts)
         self.min_paths = min_paths
         self.path_filter = path_filter
         self.closure = closure
